@@ -214,6 +214,12 @@ pub fn run(out_path: &str, tier: &str) {
 		let p = to_params(&d).unwrap();
 		if let Outcome::Ok(cert) = guarded(|| p.clone().self_signed(&k.kp)) {
 			let der = cert.der().to_vec();
+			// AsRef<CertificateParams> of the certificate and of the parameters themselves
+			let as_ref_ok = {
+				let r1: &CertificateParams = cert.as_ref();
+				let r2: &CertificateParams = p.as_ref();
+				r1 == cert.params() && r2 == &p
+			};
 			let mut q = p.clone();
 			q.serial_number = None;
 			q.is_ca = IsCa::NoCa;
@@ -225,7 +231,7 @@ pub fn run(out_path: &str, tier: &str) {
 			let c2: pki_types::CertificateDer<'static> = cert.into();
 			let r2: pki_types::CertificateSigningRequestDer<'static> = csr.into();
 			let l2: pki_types::CertificateRevocationListDer<'static> = crl.into();
-			out.event("Conversions", "api-conv/0", json!({}), "Ok", "", json!({"certEq": c2.as_ref() == der.as_slice(), "csrEq": r2.as_ref() == csr_der.as_slice(), "crlEq": l2.as_ref() == crl_der.as_slice()}));
+			out.event("Conversions", "api-conv/0", json!({}), "Ok", "", json!({"certEq": c2.as_ref() == der.as_slice() && as_ref_ok, "csrEq": r2.as_ref() == csr_der.as_slice(), "crlEq": l2.as_ref() == crl_der.as_slice()}));
 		}
 	}
 	out.finish();
